@@ -167,20 +167,22 @@ class ConstantLengthTupleProvider(LoaderProvider, DumperProvider):
         loaders_len = len(loaders)
 
         def dt_disable_non_sc_loader(data):
+            # convert to tuple first, as loaders for other debug trail modes do (data can have no ``__len__``)
             try:
-                data_len = len(data)
+                value_tuple = tuple(data)
             except TypeError:
                 raise TypeLoadError(tuple, data)
 
+            data_len = len(value_tuple)
             if data_len != loaders_len:
                 if data_len > loaders_len:
-                    raise ExtraItemsLoadError(loaders_len, data)
+                    raise ExtraItemsLoadError(loaders_len, value_tuple)
                 if loaders_len > data_len:
-                    raise NoRequiredItemsLoadError(loaders_len, data)
+                    raise NoRequiredItemsLoadError(loaders_len, value_tuple)
 
             return tuple(
                 loader(field)
-                for loader, field in zip(loaders, data)
+                for loader, field in zip(loaders, value_tuple)
             )
 
         return dt_disable_non_sc_loader
@@ -194,20 +196,22 @@ class ConstantLengthTupleProvider(LoaderProvider, DumperProvider):
             if type(data) is str:
                 raise ExcludedTypeLoadError(tuple, str, data)
 
+            # convert to tuple first, as loaders for other debug trail modes do (data can have no ``__len__``)
             try:
-                data_len = len(data)
+                value_tuple = tuple(data)
             except TypeError:
                 raise TypeLoadError(tuple, data)
 
+            data_len = len(value_tuple)
             if data_len != loaders_len:
                 if data_len > loaders_len:
-                    raise ExtraItemsLoadError(loaders_len, data)
+                    raise ExtraItemsLoadError(loaders_len, value_tuple)
                 if loaders_len > data_len:
-                    raise NoRequiredItemsLoadError(loaders_len, data)
+                    raise NoRequiredItemsLoadError(loaders_len, value_tuple)
 
             return tuple(
                 loader(field)
-                for loader, field in zip(loaders, data)
+                for loader, field in zip(loaders, value_tuple)
             )
 
         return dt_disable_sc_loader
